@@ -21,11 +21,20 @@ STRENGTHENED = {
  "C12-m3": "round 2; would have been missed with one import level; a second-level import (leaf.pg) with edit/touch operations was added before it was run; caught",
  "C02-m3": "round 2; crossing lexical overlap (a|ab|bc|c on 'abc') was added as a lexicon family before it was run; caught",
  "C03-m4": "round 2; forests beyond 2**63 trees (41 tokens of S: S S | a) were added before it was run; caught",
+ "C15-m3": "round 2; missed at first (the raising recognizer only raised where nothing else matched, so no head had found its token yet); caught after the recognizer also raises on a terminal's text followed by '!' and grammars with two heads in different states on one frontier (plus targeted inputs) were added",
+ "C15-m4": "round 2; missed at first (inputs never began with layout); caught after generated layout before the first token was added",
+ "C16-m3": "round 2; not visible between hash seeds; caught by C12's round trip as it stood, and by C16 after the worker started to compare a second construction (which loads the cached table) with the first",
+ "C16-m4": "round 2; missed at first (needs heavily ambiguous nullable grammars); caught after the sub-check hash-seed-nullable-ambiguous was added",
+ "C17-m4": "round 2; missed at first (trees were compared without the root's span); caught after 'the root ends where its own prefix ends' was added",
+ "C18-m3": "round 2; missed at first (no nullable production was ever marked dynamic); caught after the Sign: '~' | EMPTY {dynamic} rule was added",
+ "C18-m4": "round 2; missed at first (terminal-only marking was never built with LR); caught after the one-sided marking family was added",
+ "C20-m4": "round 2; missed at first (no KEYWORD terminal in multi-file grammars); caught after an optional KEYWORD in the root file and glued inputs were added. While doing so a harness bug surfaced: the strict 'modular-differs-from-flattened' report passed a keyword twice and would have ended in a harness error (exit 2) instead of a VIOLATION; fixed, and tools_lint.py now looks for this pattern",
  "C19-m2": "ported by hand onto the repaired keyword code (fix F13): KEYWORD regex run over the lower-cased text but compared with the original text",
 }
-ALSO = {"C04-m3": ["C05"], "C04-m4": ["C12"], "C01-m1": ["C02"], "C01-m2": ["C02", "C04", "C05"], "C02-m2": ["C01"], "C04-m1": ["C05"], "C04-m2": ["C05"], "C13-m2": ["C09"],
+ALSO = {"C04-m3": ["C05"], "C04-m4": ["C12"], "C16-m3": ["C12"], "C01-m1": ["C02"], "C01-m2": ["C02", "C04", "C05"], "C02-m2": ["C01"], "C04-m1": ["C05"], "C04-m2": ["C05"], "C13-m2": ["C09"],
         "C16-m2": ["C12"]}
-NOT = {"C16-m2": ["C16"], "C02-m1": ["C01"], "C04-m4": ["C04", "C05"]}
+NOT = {"C16-m2": ["C16"], "C02-m1": ["C01"], "C04-m4": ["C04", "C05"], "C17-m3": ["C02", "C03"], "C17-m4": ["C08"],
+       "C20-m4": ["C19"]}
 for d in sorted(glob.glob('/verif/seeded/C*-m*')):
     mid = os.path.basename(d)
     prop = mid.split('-')[0]
